@@ -89,9 +89,12 @@ func (a *Alias) LLString() string {
 	}
 	buf.WriteString(" alias")
 	fmt.Fprintf(buf, " %s, ", a.Typ.ElemType)
-	if expr, ok := a.Aliasee.(constant.Expression); ok {
+	switch expr := a.Aliasee.(type) {
+	case *constant.ExprAddrSpaceCast, *constant.ExprBitCast, *constant.ExprGetElementPtr, *constant.ExprIntToPtr:
+		// The aliasee may be given without type only if it is one of these
+		// constant expressions.
 		buf.WriteString(expr.Ident())
-	} else {
+	default:
 		buf.WriteString(a.Aliasee.String())
 	}
 	if len(a.Partition) > 0 {
